@@ -321,7 +321,7 @@ def run(ctx):
     for t in range(ctx.pick(300, 3000)):
         n = rng.choice([3, 6, 15, 40])
         scale, off = rng.choice([(0.1, 0.0), (0.1, 1234.5), (0.25, -3.0), (1e-3, 7e3), (152.4, 0.0), (0.5, 1e6),
-                                 (1e-17, 0.0), (2.0 ** -60, 0.0), (1e-20, 5e-9), (1e-12, 0.0), (1e-9, 1e-6), (3e15, 0.0)])   # small and large magnitudes
+                                 (1e-17, 0.0), (2.0 ** -60, 0.0), (1e-20, 5e-9), (1e-12, 0.0), (1e-9, 1e-6), (3e15, 0.0), (0.5, 1.6e12), (1000.0, 1.6e12)])   # small and large magnitudes
         seq, k = [], rng.randint(-20, 20)
         while len(seq) < n:
             stride = rng.randint(-3, 4)
@@ -338,6 +338,12 @@ def run(ctx):
             tr.append(dict(op='add', v=k))
         qs = [e for e in _queries(rle, seq, rng, conv=conv, allq=n <= 15) if e['op'] != 'largest_le']
         tr += qs
+        # largest_le on floats: asked half way between lattice points (a query ON a stored value is a matter of rounding), for ascending
+        # sequences on lattices whose spacing is well above the rounding of the values
+        if all(seq[i] <= seq[i + 1] for i in range(n - 1)) and 0.25 * scale > 64 * EPS * max(abs(off), abs(scale) * 100):
+            for k in range(seq[0], min(seq[-1], seq[0] + 40) + 1):
+                ok, r = _call(rle.largest_le, conv.inv(k) + 0.5 * scale)
+                tr.append(_ev('largest_le', ok, conv(r) if ok else r, q=k))
         if conv.bad:
             ctx.fail('float RLE result %r is not within rounding of the added value %r (lattice index %d, tol %g)' % (
                 conv.bad[0], conv.bad[2], conv.bad[1], conv.bad[3]), dict(seq=seq, scale=scale, off=off), sig=dict(kind='float'))
